@@ -41,7 +41,7 @@ PROB = {
 }
 PROB['google'].update({'typexref': 'Args:\n    a (zzX): the a', 'rtypexref': 'Returns:\n    zzX: the result'})
 POSITIONS = ['p1l1', 'p1l2', 'p2', 'li', 'fb', 'sections', 'after-linesep', 'directive-body', 'directive-arg', 'directive-body-line2']
-OWNERS = ['module', 'class', 'function', 'method', 'attribute', 'inherited', 'reexported', 'classfield', 'classfield+inline', 'typefield+inline', 'ivar-two-sites', 'attr-redefined', 'classtypefield', 'modvarfield', 'modtypefield', 'class-redefined', 'function-redefined', 'class-redefined-both-bad', 'inherited-rendered-first', 'doc-assigned-class', 'doc-assigned-module']
+OWNERS = ['module', 'class', 'function', 'method', 'attribute', 'inherited', 'reexported', 'classfield', 'classfield+inline', 'typefield+inline', 'ivar-two-sites', 'attr-redefined', 'classtypefield', 'modvarfield', 'modtypefield', 'class-redefined', 'function-redefined', 'class-redefined-both-bad', 'inherited-rendered-first', 'doc-assigned-class']
 # (text on the opening line, leading lines below the quotes)
 LAYOUTS: List[Tuple[bool, List[str]]] = [(True, []), (False, []), (False, ['']), (False, ['', '']), (False, ['WS']), (False, ['TRAIL'])]
 
